@@ -2,7 +2,7 @@
    Model: Names.expand (generate.GenFunctions.define_function_suffix: default-argument clones, template clones,
    overload numbering, fortran_generic clones), Names.un_camel (util.un_camel), the C_name / F_name_impl templates. *)
 From Coq Require Import List NArith ZArith Bool Arith String.
-From Shroud Require Import Base.Ustr Model.Splicer Model.Options Model.Names Proof.Names Proof.NamesPin.
+From Shroud Require Import Base.Ustr Model.Splicer Model.Options Model.Names Proof.Names Proof.NamesPin Proof.NamesWrap.
 Import ListNotations.
 
 (* defaulted suffixes (no explicit function_suffix / default_arg_suffix, no templates, no fortran_generic), any number of
@@ -46,6 +46,29 @@ Example C08_pinning_example :
   | None => False
   end.
 Proof. exact pinned_example. Qed.
+
+(* wrapper selection on single declarations (options wrap_c / wrap_fortran): the names emitted are exactly, in order, the names
+   of the unflagged library whose declaration has the flag on — switching a wrapper off removes names and changes none, so no
+   new name appears and distinct names stay distinct *)
+Theorem C08_names_with_wrap_flags : forall prefix scope fs ws,
+  c_names_w prefix scope fs ws = map (nm_c_name prefix scope) (filter (fun e => e_c e && flag_c ws e) (expand fs)).
+Proof. exact c_names_w_spec. Qed.
+Print Assumptions C08_names_with_wrap_flags.
+
+Theorem C08_wrap_flags_only_remove_names : forall prefix scope fscope fs ws,
+  (forall x, In x (c_names_w prefix scope fs ws) -> In x (c_names prefix scope fs)) /\
+  (forall x, In x (f_names_w fscope fs ws) -> In x (f_names fscope fs)) /\
+  (NoDup (c_names prefix scope fs) -> NoDup (c_names_w prefix scope fs ws)) /\
+  (NoDup (f_names fscope fs) -> NoDup (f_names_w fscope fs ws)).
+Proof. exact wrap_flags_only_remove_names. Qed.
+Print Assumptions C08_wrap_flags_only_remove_names.
+
+Example C08_wrap_flags_example :
+  let fs := [mkfn "foo" 0 None; mkfn "foo" 1 None; mkfn "foo" 0 None] in
+  c_names (cp "N_") [] fs = map cp ["N_foo_0"; "N_foo_1"; "N_foo_2"; "N_foo_3"]%string /\
+  c_names_w (cp "N_") [] fs [(true, true); (false, false); (true, false)] = map cp ["N_foo_0"; "N_foo_3"]%string /\
+  f_names_w [] fs [(true, true); (false, false); (true, false)] = map cp ["foo_0"]%string.
+Proof. exact wrap_example. Qed.
 
 (* The FULL statement (explicit suffixes; any names with pairwise distinct underscore forms) is false of the model: *)
 Theorem C08_explicit_suffix_with_default_refuted :
